@@ -325,7 +325,7 @@ def stub_lemma(reg):
             depth -= 1
     if last_open is None:
         raise AnchorLost("lemma %s has no body" % reg.name)
-    return "#[verifier::external_body]\n" + text[:last_open.start] + "{ }\n"
+    return "#[verifier::external_body]\n" + text[:last_open.start] + "{ unimplemented!() }\n"
 
 
 def build_unit(repo, contracts_dir, unit, out_path):
